@@ -193,11 +193,12 @@ func verifDrain() {
 	conc := verifSched.active && !verifSched.free
 	verifSched.mu.Unlock()
 	if conc {
-		// under a replayed schedule the harness thread simply waits for its next turn
+		// under a replayed schedule the harness thread waits until the player resumes it
+		// (in the model verifDrain is a blocking operation, not a scheduling point)
 		verifSched.mu.Lock()
 		t := verifSched.byGID[verifGID()]
 		if t != nil {
-			t.waiting = true
+			t.inDrain = true
 		}
 		verifSched.mu.Unlock()
 		if t != nil {
@@ -504,6 +505,8 @@ type verifThread struct {
 	waiting bool // parked at a yield point, waiting for its turn
 	started bool
 	done    bool
+	inPrim  bool // the model says its last step ended blocked inside a primitive: it resumes by itself
+	inDrain bool // parked in verifDrain (the model: blocked until the others are at rest)
 }
 
 var verifSched struct {
@@ -536,6 +539,11 @@ func verifNewThread() int {
 	defer verifSched.mu.Unlock()
 	t := &verifThread{id: len(verifSched.threads), grant: make(chan struct{}, 1)}
 	verifSched.threads = append(verifSched.threads, t)
+	if os.Getenv("VERIF_DEBUG") != "" {
+		_, f1, l1, _ := runtime.Caller(1)
+		_, f2, l2, _ := runtime.Caller(2)
+		fmt.Printf("SCHED new thread %d by gid=%d at %s:%d <- %s:%d\n", t.id, verifGID(), f1, l1, f2, l2)
+	}
 	return t.id
 }
 
@@ -624,6 +632,10 @@ func verifPark() {
 	}
 	t.waiting = true
 	verifSched.mu.Unlock()
+	if os.Getenv("VERIF_DEBUG") != "" {
+		_, f1, l1, _ := runtime.Caller(2)
+		fmt.Printf("SCHED park thread %d at %s:%d\n", t.id, f1, l1)
+	}
 	verifSchedEvent()
 	<-t.grant
 }
@@ -632,37 +644,46 @@ func verifSchedRelease() {
 	verifSched.mu.Lock()
 	verifSched.free = true
 	for _, t := range verifSched.threads {
-		if t.waiting {
+		if t.waiting || t.inDrain {
 			t.waiting = false
+			t.inDrain = false
 			t.grant <- struct{}{}
 		}
 	}
 	verifSched.mu.Unlock()
 }
 
-// verifSchedLoop plays the recorded schedule.
+// verifSchedLoop plays the recorded schedule. Every entry names the thread that
+// takes the step and says whether the model's step ended with the thread blocked
+// inside a primitive (then the thread is not waited for, and its next entry - the
+// model's "resume" step - is not a grant: natively the thread resumes by itself as
+// soon as it is released, and the player only waits until it has reached its next
+// scheduling point) or at a scheduling point / its end (then the player waits for
+// exactly that, with a generous limit, so that a slow machine does not shift steps).
 func verifSchedLoop() {
-	settle := func(t *verifThread) {
-		// wait until t is parked again, has ended, or seems blocked in a primitive
-		deadline := time.After(30 * time.Millisecond)
+	const long = 3 * time.Second
+	settle := func(t *verifThread, limit time.Duration) bool {
+		deadline := time.After(limit)
 		for {
 			verifSched.mu.Lock()
-			stop := t.waiting || t.done
+			stop := t.waiting || t.done || t.inDrain
 			verifSched.mu.Unlock()
 			if stop {
-				return
+				return true
 			}
 			select {
 			case <-verifSched.event:
 			case <-deadline:
-				return
+				return false
 			}
 		}
 	}
-	for _, id := range verifSched.sched {
+	dbg := os.Getenv("VERIF_DEBUG") != ""
+	for _, ent := range verifSched.sched {
+		id, endsBlocked := ent&0xffff, ent>>16 != 0
 		// the thread must exist and be parked (or become so: it may still be on its way)
 		var t *verifThread
-		deadline := time.After(300 * time.Millisecond)
+		deadline := time.After(long)
 	wait:
 		for {
 			verifSched.mu.Lock()
@@ -671,7 +692,7 @@ func verifSchedLoop() {
 			}
 			hook := verifSched.onBlock
 			spawnHook := t == nil && id == len(verifSched.threads) && hook != nil
-			ready := t != nil && (t.waiting || t.done)
+			ready := t != nil && (t.waiting || t.done || t.inDrain || t.inPrim)
 			verifSched.mu.Unlock()
 			if spawnHook {
 				// the engine ran the terminal hook here: everything else is parked or blocked
@@ -693,6 +714,13 @@ func verifSchedLoop() {
 			}
 		}
 		verifSched.mu.Lock()
+		if dbg {
+			st := "nil"
+			if t != nil {
+				st = fmt.Sprintf("waiting=%v done=%v inPrim=%v inDrain=%v", t.waiting, t.done, t.inPrim, t.inDrain)
+			}
+			fmt.Printf("SCHED step id=%d endsBlocked=%v threads=%d %s\n", id, endsBlocked, len(verifSched.threads), st)
+		}
 		if t == nil {
 			// the thread the schedule names does not exist natively: the replay has drifted
 			// from the model; give up steering and let everything run freely
@@ -704,17 +732,42 @@ func verifSchedLoop() {
 			verifSched.mu.Unlock()
 			continue
 		}
-		if !t.waiting {
-			// not at a yield point: it is inside a blocking primitive (the model
-			// unblocked it); it will run by itself. Give it time to get to its next point.
+		switch {
+		case t.inDrain:
+			// the model resumes the harness from verifDrain
+			t.inDrain = false
+			t.inPrim = false
+			t.grant <- struct{}{}
+		case t.inPrim:
+			// the model resumes a thread that was blocked in a primitive: natively it is
+			// already on its way (or there); this step only waits for it
+			t.inPrim = false
+		case t.waiting:
+			t.waiting = false
+			t.grant <- struct{}{}
+		default:
+			// neither parked nor known to be blocked: it is still running towards its next point
+		}
+		verifSched.mu.Unlock()
+		if endsBlocked {
+			// give it a moment to get into the primitive; it will not report back
+			settle(t, 20*time.Millisecond)
+			verifSched.mu.Lock()
+			if !t.waiting && !t.done && !t.inDrain {
+				t.inPrim = true
+			}
 			verifSched.mu.Unlock()
-			settle(t)
 			continue
 		}
-		t.waiting = false
-		t.grant <- struct{}{}
-		verifSched.mu.Unlock()
-		settle(t)
+		if !settle(t, long) {
+			// the model says the step ends at a scheduling point, natively the thread does not
+			// get there: it is blocked where the model was not. The replay has left the model's
+			// path: stop steering, let everything run, and let the harness' own checks speak
+			verifSched.mu.Lock()
+			verifSched.drifted = fmt.Sprintf("thread %d did not reach its next scheduling point", id)
+			verifSched.mu.Unlock()
+			break
+		}
 	}
 	verifSchedRelease()
 }
